@@ -12,7 +12,8 @@ TRUSTED = [
     "end-to-end oracle: sqlite3 column names of the emitted SQL vs the frame of the reference semantics, on tables that have an extra column the program never mentions (run-time expansion of *)",
     "hand-written model coq/Model/Dedup.v of deduplicate_select_items, tied the same way (hook commit b55902d); both functions are textually unchanged at /repo HEAD 2a611aa (only cfg(prqlc_verif) code was added to gen_projection.rs)",
     "star stream: sqlparser (parse of the emitted duckdb / bigquery / snowflake SQL) and the star expander of harness/src/c05.rs, validated on every run against the column names SQLite reports",
-    "not modelled: translate_select_item / translate_select_items / push_select / the limiting SELECT of extract_atomic are covered by execution only (hooks select-item / select-items exist in /repo; their /verif side is not built yet)",
+    "hand-written model coq/Model/SelectItems.v of translate_select_item / translate_exclude / as_col_names / translate_select_items (on C09's Model/NameGen.v select_item_alias and Model/Dedup.v), tied by exact correspondence with every real call (hooks select-item bab53a0, select-items 7fc85b6, pq-names d5c1b7e); inputs of the model that are not modelled: the shape of a column's expression (translate_cid), identifier quoting (compared by value)",
+    "not modelled: push_select / the limiting SELECT of extract_atomic are covered by execution only",
 ]
 
 
